@@ -163,6 +163,37 @@ def register(pid, **kw):
     CHECKS[pid] = kw
 
 
+def race_post_run(needle, what, chain=None):
+    """post_run factory for checks that run some parts under the race detector: a report whose stacks
+    touch `needle` (outside the harness's own frames) is a violation of the property being checked."""
+    def post(vc, scr, spec, res, children):
+        import glob as _g
+        paths = []
+        for c in children:
+            paths += _g.glob(os.path.join(c.wd, "race*"))
+        seen = set()
+        n = 0
+        for r in parse_race_logs(paths):
+            if needle not in r["text"]:
+                continue
+            fr = _inner_robust(r["stacks"][0]) if r["stacks"] else None
+            if fr and "verif_" in fr[1]:
+                fr2 = _inner_robust(r["stacks"][1]) if len(r["stacks"]) > 1 else None
+                if not fr2 or "verif_" in fr2[1]:
+                    continue
+                fr = fr2
+            n += 1
+            key = "race:" + (fr[0].split("/")[-1] if fr else "unknown")
+            if key in seen:
+                continue
+            seen.add(key)
+            res.violations.append({"t": "violation", "prop": res.prop, "key": key, "what": what, "witness": {"report": r["text"][:2500]}})
+        res.obs["race_reports_" + needle] = n
+        if chain:
+            chain(vc, scr, spec, res, children)
+    return post
+
+
 def c07_on_fatal_other(vc, spec, res, c, recs):
     """The C07 harness running for another property (C10): a death in the replay phase is C07's business."""
     res.obs["c07-harness-child-died"] = res.obs.get("c07-harness-child-died", 0) + 1
@@ -320,7 +351,9 @@ register("C08", title="output stream next-message lookup", pkg="./internal/outpu
 
 
 register("C09", title="LevelDB store honours LogStore / StableStore", pkg="./internal/raftstore",
-         parts=[{"test": "^TestVerifC09$", "children": {"quick": 16, "thorough": 16}, "cases": {"quick": 40, "thorough": 700}}],
+         parts=[{"test": "^TestVerifC09$", "children": {"quick": 16, "thorough": 16}, "cases": {"quick": 40, "thorough": 700}},
+                {"test": "^TestVerifC09Concurrent$", "name": "raftstore_race", "race": True, "may_die": True, "children": {"quick": 2, "thorough": 8}, "cases": {"quick": 4, "thorough": 30}}],
+         post_run=race_post_run("raftstore", "data race inside the log store while raft's readers and its writer use it concurrently (a reader can be handed another entry's fields)"),
          timeout={"quick": 300, "thorough": 1800}, level="exploration",
          rule="seeded operation sequences (StoreLog(s), StoreLogProto, DeleteRange, Set/Get, SetUint64/GetUint64, First/LastIndex, GetLog, close+reopen in "
               "JSON or protobuf mode, JSON->protobuf conversion) over small indexes, byte-boundary indexes and indexes whose key bytes sort around the "
@@ -368,7 +401,10 @@ register("C19", title="time safeguard", pkg="./internal/timesafeguard", post_run
 register("C18", title="codecs round-trip",
          parts=[{"pkg": "./internal/raftstore", "test": "^TestVerifC18$", "children": {"quick": 8, "thorough": 16}, "cases": {"quick": 15000, "thorough": 300000}},
                 {"pkg": "./internal/outputstream", "test": "^TestVerifC18Batch$", "children": {"quick": 4, "thorough": 8}, "cases": {"quick": 10000, "thorough": 300000}},
-                {"pkg": ".", "test": "^TestVerifC18Readers$", "children": {"quick": 4, "thorough": 16}, "cases": {"quick": 6, "thorough": 60}}],
+                {"pkg": ".", "test": "^TestVerifC18Readers$", "children": {"quick": 4, "thorough": 16}, "cases": {"quick": 6, "thorough": 60}},
+                {"pkg": "./internal/raftstore", "test": "^TestVerifC09Concurrent$", "name": "raftstore_race", "race": True, "may_die": True, "children": {"quick": 2, "thorough": 8},
+                 "cases": {"quick": 4, "thorough": 30}}],
+         post_run=race_post_run("raftstore", "data race in the log store's decoder while several readers decode entries concurrently (a reader can be handed another entry's fields)"),
          timeout={"quick": 300, "thorough": 1800}, level="exploration",
          rule="generated replicated messages (all types, all field subsets, 0/max integers, long valid UTF-8): protobuf and legacy JSON encoders against "
               "NewMessageFromBytes, id defaulting, ProtoMessage vs CopyToProtoMessage into a reused destination; raft log entries written by StoreLog(s)/"
